@@ -49,7 +49,7 @@ SPEC = {
     'jax.jit cache keyed by treedef; jax.vmap / jax.grad rebuild outputs with tree_unflatten (A-JIT, A-VMAP, A-AD)',
   ],
   'assumptions': [
-    'list / tuple / ndarray / None values are leaves: the code never copies or inspects them and the property quantifies over them as leaves; a dict hidden inside a list leaf is outside the claim',
+    'list / tuple / ndarray / None values are leaves for freeze / indexing / copy / pop (the code never copies or inspects them and the property quantifies over them as leaves): a list stored in a FrozenDict is the caller\'s list object and fd[k] hands it out (recorded per run under list_leaf_sharing_observed_not_judged, not judged). The exception that IS claimed and checked: unfreeze / tree_map / pickle rebuild every pytree node, lists and tuples included (unfreeze_containers, companion model Model/FrozenList.lean)',
     'keys are strings (tree_flatten sorts keys; mixed incomparable keys raise in sorted())',
     'private attributes (_dict, _hash, object.__setattr__) are not an API',
     'tree_flatten hands out the raw inner dicts as children (visible only with a custom is_leaf): flatten/unflatten is claimed as value equality only (DESIGN.md §7)',
@@ -1401,6 +1401,252 @@ def cross_process_pickle(ctx, specs_out=None, specs_back=None):
 
 
 # ------------------------------------------------------------------------------------------------
+# unfreeze shares no mutable container with the FrozenDict, lists / tuples inside included
+# (companion model lean/Flax/Model/FrozenList.lean; theorem unfreeze_shares_no_mutable_container)
+# ------------------------------------------------------------------------------------------------
+
+
+def _uc_spec(rng, depth, top=False):
+  """nested literal: {'d': {...}} dict, {'l': [...]} list, {'t': [...]} tuple, {'fz': {...}} FrozenDict (only inside a list/tuple),
+  {'arr': n} ndarray leaf, int leaf.  Lists of dicts, dicts inside lists inside dicts, tuples of lists all occur."""
+  r = rng.random()
+  if top or (depth > 0 and r < 0.34):
+    return {'d': {k: _uc_spec(rng, depth - 1) for k in rng.sample(['params', 'layers', 'w', 'b', 'head', 'stats'], rng.randrange(1, 4))}}
+  if depth > 0 and r < 0.62:
+    return {'l': [_uc_spec(rng, depth - 1) if rng.random() < 0.8 else _uc_fz(rng, depth - 1) for _ in range(rng.randrange(0, 4))]}
+  if depth > 0 and r < 0.74:
+    return {'t': [_uc_spec(rng, depth - 1) for _ in range(rng.randrange(1, 3))]}
+  if r < 0.82:
+    return {'arr': rng.randrange(100)}
+  return rng.randrange(1000)
+
+
+def _uc_fz(rng, depth):
+  return {'fz': {k: _uc_spec(rng, depth) for k in rng.sample(['w', 'b'], rng.randrange(1, 3))}}
+
+
+def _uc_build(j):
+  if isinstance(j, dict):
+    if 'd' in j:
+      return {k: _uc_build(v) for k, v in j['d'].items()}
+    if 'l' in j:
+      return [_uc_build(v) for v in j['l']]
+    if 't' in j:
+      return tuple(_uc_build(v) for v in j['t'])
+    if 'fz' in j:
+      return FrozenDict({k: _uc_build(v) for k, v in j['fz'].items()})
+    return np.array([j['arr'], j['arr'] + 1])
+  return j
+
+
+def _uc_snap(x, depth=0):
+  """deep canonical content (dict/FrozenDict distinction dropped, keys sorted, arrays by value)"""
+  if depth > 30:
+    raise Explosion()
+  if isinstance(x, (dict, FrozenDict)):
+    return ['d', sorted([k, _uc_snap(v, depth + 1)] for k, v in x.items())]
+  if isinstance(x, list):
+    return ['l', [_uc_snap(v, depth + 1) for v in x]]
+  if isinstance(x, tuple):
+    return ['t', [_uc_snap(v, depth + 1) for v in x]]
+  if isinstance(x, np.ndarray):
+    return ['arr', x.tolist()]
+  return x
+
+
+def _uc_mutable_ids(x):
+  """ids of every mutable container (dict or list) reachable from x, through dicts, lists, tuples and inside FrozenDicts"""
+  out = {}
+  stack = [x]
+  seen = set()
+  while stack:
+    o = stack.pop()
+    if id(o) in seen:
+      continue
+    seen.add(id(o))
+    if isinstance(o, FrozenDict):
+      stack.extend(r for r in gc.get_referents(o) if isinstance(r, dict) and not isinstance(r, FrozenDict))
+    elif isinstance(o, dict):
+      out[id(o)] = o
+      stack.extend(o.values())
+    elif isinstance(o, list):
+      out[id(o)] = o
+      stack.extend(o)
+    elif isinstance(o, tuple):
+      stack.extend(o)
+  return out
+
+
+def _uc_heap(spec):
+  """the FrozenDict freeze(build(spec)) as a heap for the companion model; returns (objects, address of the FrozenDict)"""
+  heap = []
+
+  def val(j):
+    if isinstance(j, dict):
+      if 'd' in j:
+        kvs = [[k, val(v)] for k, v in j['d'].items()]
+        heap.append({'d': kvs})
+      elif 'l' in j:
+        xs = [val(v) for v in j['l']]
+        heap.append({'l': xs})
+      elif 't' in j:
+        xs = [val(v) for v in j['t']]
+        heap.append({'t': xs})
+      elif 'fz' in j:
+        kvs = [[k, val(v)] for k, v in j['fz'].items()]
+        heap.append({'d': kvs})
+        heap.append({'f': len(heap) - 1})
+      else:
+        return 100000 + j['arr']
+      return {'r': len(heap) - 1}
+    return j
+
+  top = val(spec)
+  heap.append({'f': top['r']})
+  return heap, len(heap) - 1
+
+
+def _uc_model_snap(j):
+  if isinstance(j, dict):
+    if j['k'] in ('d',):
+      return ['d', sorted([k, _uc_model_snap(v)] for k, v in j['items'])]
+    if j['k'] == 'f':
+      return _uc_model_snap(j['items'][0])
+    return [j['k'], [_uc_model_snap(v) for v in j['items']]]
+  if isinstance(j, int) and j >= 100000:
+    return ['arr', [j - 100000, j - 100000 + 1]]
+  return j
+
+
+def _uc_addrs(j, out):
+  if isinstance(j, dict):
+    if j['k'] in ('d', 'l'):
+      out.append(j['addr'])
+    for v in j['items']:
+      _uc_addrs(v[1] if j['k'] == 'd' else v, out)
+  return out
+
+
+def _uc_mutate(rng, root, n):
+  """n random in-place mutations at random depths through `root` (dict setitem/del, list append/setitem/del)"""
+  done = 0
+  for _ in range(n * 3):
+    if done >= n:
+      break
+    cur = root
+    for _ in range(rng.randrange(0, 5)):
+      kids = [v for v in (cur.values() if isinstance(cur, dict) else cur) if isinstance(v, (dict, list, tuple)) and not isinstance(v, FrozenDict)]
+      if not kids:
+        break
+      cur = rng.choice(kids)
+    if isinstance(cur, dict):
+      ks = list(cur)
+      r = rng.random()
+      if ks and r < 0.3:
+        del cur[rng.choice(ks)]
+      elif ks and r < 0.6:
+        cur[rng.choice(ks)] = ('clobbered',)
+      else:
+        cur['__new__'] = {'x': 1}
+      done += 1
+    elif isinstance(cur, list):
+      r = rng.random()
+      if cur and r < 0.3:
+        del cur[rng.randrange(len(cur))]
+      elif cur and r < 0.6:
+        cur[rng.randrange(len(cur))] = ('clobbered',)
+      else:
+        cur.append({'w': 0})
+      done += 1
+
+
+def unfreeze_containers(ctx, drv, specs=None):
+  rng = ctx.rng
+  if specs is None:
+    specs = [_uc_spec(rng, rng.randrange(2, 5), top=True) for _ in range(140)]
+  reqs, pend = [], []
+  for spec in specs:
+    case = {'kind': 'unfreeze-containers', 'specs': [spec]}
+    fd = fz.freeze(_uc_build(spec))
+    ref = fz.freeze(_uc_build(spec))
+    snap0 = _uc_snap(fd)
+    fd_ids = _uc_mutable_ids(fd)
+    has_list = any(isinstance(o, list) for o in fd_ids.values())
+    ctx.case(case, nontrivial=has_list)
+    ctx.count('unfreeze_containers', 'with-list' if has_list else 'dicts-only')
+    ctx.count('unfreeze_containers_dict_inside_list', int(any(isinstance(o, list) and any(isinstance(v, dict) for v in o) for o in fd_ids.values())))
+    sub = next((k for k, v in fd.items() if isinstance(v, FrozenDict)), None)
+    routes = [('unfreeze', lambda: (fz.unfreeze(fd), fd)), ('unfreeze-method', lambda: (fd.unfreeze(), fd)),
+              ('tree_map', lambda: (jax.tree_util.tree_map(lambda y: y, fd), fd)), ('pickle', lambda: (pickle.loads(pickle.dumps(fd)), fd))]
+    if sub is not None:
+      routes.append(('subview-unfreeze', lambda: (fd[sub].unfreeze(), fd[sub])))
+    bad = None
+    shared_any = False
+    for name, fn in routes:
+      try:
+        res, src = fn()
+        want = _uc_snap(src)
+        got = _uc_snap(res)
+      except Exception as e:
+        bad = ('unfreeze-containers-raises', f'{name} of freeze({json.dumps(spec)}) raised {type(e).__name__}')
+        break
+      if got != want:
+        bad = ('unfreeze-content', f'{name} of freeze({json.dumps(spec)}) has contents {json.dumps(got)} instead of {json.dumps(want)}')
+        break
+      shared = set(_uc_mutable_ids(res)) & set(fd_ids)
+      if shared:
+        shared_any = shared_any or name.startswith('unfreeze')
+        kinds = sorted({type(fd_ids[i]).__name__ for i in shared})
+        bad = (f'unfreeze-shares-mutable-container:{name}', f'{name} of freeze({json.dumps(spec)}) returns {len(shared)} mutable container(s) ({kinds}) that are the very objects inside the FrozenDict')
+        break
+      # in-place mutations at random depths through the result never change the FrozenDict
+      if True:
+        # (for a FrozenDict result: through the list objects it hands out by indexing / iteration)
+        target = res if not isinstance(res, FrozenDict) else {k: v for k, v in res.items()}
+        _uc_mutate(rng, target, 4)
+        now = _uc_snap(fd)
+        if now != snap0:
+          bad = (f'frozen-changed-through-result:{name}', f'mutating the value returned by {name} of freeze({json.dumps(spec)}) changed the FrozenDict from {json.dumps(snap0)} to {json.dumps(now)}')
+          break
+        if not any(isinstance(o, np.ndarray) for o in jax.tree_util.tree_leaves(_uc_build(spec))):
+          try:
+            eq = (fd == ref) and (ref == fd)
+          except Exception as e:
+            eq = 'raised ' + type(e).__name__
+          if eq is not True:
+            bad = (f'frozen-changed-through-result:{name}', f'after mutating the value returned by {name}, freeze({json.dumps(spec)}) == a fresh copy is {eq}')
+            break
+          if safe_hash(fd) != safe_hash(ref):
+            bad = (f'frozen-changed-through-result:{name}', f'after mutating the value returned by {name}, hash of freeze({json.dumps(spec)}) differs from a fresh copy')
+            break
+    if bad:
+      ctx.violation(bad[0], bad[1], case, concrete=True)
+      continue
+    heap, root = _uc_heap(spec)
+    reqs.append(('l.unfreeze', [heap, root]))
+    pend.append((spec, case, snap0, shared_any))
+  outs = drv.run(reqs)
+  for (spec, case, snap0, shared_any), m in zip(pend, outs):
+    if m[0] != 'ok':
+      ctx.disagreements_checked += 1
+      ctx.violation('model-unfreeze-containers', f'model failed on freeze({json.dumps(spec)}): {m}', case, concrete=False)
+      continue
+    fresh = all(a >= m[1]['base'] for a in _uc_addrs(m[1]['res'], []))
+    if _uc_model_snap(m[1]['res']) != snap0 or fresh != (not shared_any):
+      ctx.disagreements_checked += 1
+      ctx.violation('model-unfreeze-containers', f'unfreeze of freeze({json.dumps(spec)}): model content/freshness {json.dumps(_uc_model_snap(m[1]["res"]))}/{fresh} vs implementation {json.dumps(snap0)}/{not shared_any}', case, concrete=False)
+  # recorded, not judged (lists are leaves for freeze / indexing / copy / pop: DESIGN.md §7, SPEC['assumptions'])
+  probe = {'layers': [{'w': 1}]}
+  pf = fz.freeze(probe)
+  ctx.extra['list_leaf_sharing_observed_not_judged'] = {
+    'freeze_keeps_source_list_object': pf['layers'] is probe['layers'],
+    'indexing_returns_stored_list_object': pf['layers'] is pf['layers'],
+    'copy_shares_list_object': pf.copy()['layers'] is pf['layers'],
+    'unfreeze_rebuilds_list_object': fz.unfreeze(pf)['layers'] is not pf['layers'],
+  }
+
+
+# ------------------------------------------------------------------------------------------------
 # entry points
 # ------------------------------------------------------------------------------------------------
 
@@ -1413,6 +1659,8 @@ def _run_case(ctx, drv, obj):
     run_histories(ctx, drv, 0, replay_ops=[case['ops']])
   elif case.get('kind') == 'struct':
     run_structs(ctx, drv, [case], heavy_every=1)
+  elif case.get('kind') == 'unfreeze-containers':
+    unfreeze_containers(ctx, drv, case['specs'])
   elif case.get('kind') == 'xproc':
     cross_process_pickle(ctx, case['out'], case['back'])
   else:
@@ -1451,6 +1699,7 @@ def run(ctx):
   run_structs(ctx, drv, cases, heavy_every=(25 if not thorough else 10))
   ctx.sample({'kind': 'struct', 'case': cases[0]})
   cross_process_pickle(ctx)
+  unfreeze_containers(ctx, drv)
   ctx.extra['driver_calls'] = drv.calls
   ctx.extra['exhaustive'] = False
 
